@@ -51,7 +51,9 @@ func refCandidate(dstField *types.Var, srcT types.Type, local string, exact, get
 	}
 	named, _ := base.(*types.Named)
 	imported := named != nil && named.Obj().Pkg() != nil && named.Obj().Pkg().Path() != local
-	if getter && named != nil {
+	// getters are matched by NAME too: under :match none nothing is matched by name at all
+	// (README ":match": "only processes fields or getters that have been explicitly specified")
+	if getter && ruleName && named != nil {
 		for i := 0; i < named.NumMethods(); i++ {
 			f := named.Method(i)
 			sig := f.Type().(*types.Signature)
